@@ -283,7 +283,15 @@ def truediv(a, b):
         return frac(a) / frac(b)
     if is_zero(a):
         return Fraction(0)
-    return _simp(zreal(a) / zreal(b))
+    r = _simp(zreal(a) / zreal(b))
+    if isinstance(b, Fraction) and b.denominator == 1:
+        b = b.numerator
+    if is_z3(r) and is_int(a) and isinstance(b, int) and b > 0:
+        _INT_QUOT[r.get_id()] = (r, a, b)      # floor(a / b) == a // b for integers (np.floor(m/2.0))
+    return r
+
+
+_INT_QUOT = {}
 
 
 def floordiv(a, b):
@@ -478,6 +486,9 @@ def floor_(x):
         return x
     if not is_z3(x):
         return x.__floor__()
+    hit = _INT_QUOT.get(x.get_id())
+    if hit is not None and hit[0].eq(x):
+        return floordiv(hit[1], hit[2])
     return _simp(z3.ToInt(x))
 
 
